@@ -1579,7 +1579,7 @@ func init() {
 		ID: "ROOT-1",
 		Doc: "a change of variable is undone on every path (contradiction rule): when a geom function returning []float64 corrects every element of its result by one loop-invariant offset (roots[i] -= s: the roots of the depressed polynomial shifted back), " +
 			"every return that can be reached after the offset was computed passes that loop; a return that skips it hands out roots of the substituted polynomial, not of the one that was given, and the curve/barrier intersection test built on them misses crossings",
-		Floor: 1,
+		Floor: 0, // contradiction rule: where the pattern does not occur there is nothing to be inconsistent; the positive control keeps it alive
 		Ctl:   []string{"internal__geom__root1.go.txt"},
 		Run:   runRoot1,
 	})
@@ -1676,7 +1676,7 @@ func init() {
 		ID: "AXIS-1",
 		Doc: "bounding-box tests treat both axes alike (one-sided comparison rule): in package geom, a conjunction that tests a coordinate against the min/max of the same coordinate of two other points (is the point within the span of a segment) " +
 			"contains, for every such test on X, the same test on Y and vice versa. A point that is collinear with a vertical triangle side lies within its X span wherever it is on that line; located in the wrong triangle, the funnel starts from the wrong place",
-		Floor: 1,
+		Floor: 0, // contradiction rule: where the pattern does not occur there is nothing to be inconsistent; the positive control keeps it alive
 		Ctl:   []string{"internal__geom__axis1.go.txt"},
 		Run:   runAxis1,
 	})
